@@ -900,4 +900,37 @@ example :
       [(.iri 3, .iri 4, .iri 2, none), (.iri 1, .iri 4, .iri 2, none)] := by
   decide
 
+/-! ### solutions are a LIST: equal solutions at two positions get different fresh nodes -/
+
+/-- `fresh_per_solution` is about POSITIONS in the list of solutions (`solMap tpl n i` is the blank-node map of
+    the i-th solution, whatever its value): two occurrences of the very same solution — `{A} UNION {A}`, a
+    sub-select that projects a variable away — get different nodes for the same label. -/
+def Statement_fresh_per_occurrence : Prop :=
+  ∀ (tpl : List QTpl) (n i j l x y : Nat), i ≠ j →
+    alookup (solMap tpl n i) l = some x → alookup (solMap tpl n j) l = some y → x ≠ y
+
+theorem fresh_per_occurrence : Statement_fresh_per_occurrence := by
+  intro tpl n i j l x y hij hx hy e
+  exact hij ((fresh_per_solution tpl n i j l l x y hx hy).2 e).1
+
+/-- non-vacuity: one triple, `INSERT { ?x :r _:b } WHERE { { ?x :p ?y } UNION { ?x :p ?y } }` — the solution
+    occurs twice in the list, and two different nodes are minted -/
+def unionModify : Modify :=
+  { withG := none, del := none,
+    ins := some [((.var 40, .const (.iri 5), .label 50), .dflt)],
+    using_ := [], named := [],
+    where_ := [(.dflt, [(.var 40, .const (.iri 4), .var 41)])], flt := none,
+    wmode := .union [(.dflt, [(.var 40, .const (.iri 4), .var 41)])] }
+def oneTriple : St := ⟨[(.iri 1, .iri 4, .iri 2, none)], [], 0⟩
+
+example : unionModify.solutions plainGraph oneTriple =
+    [[(41, .iri 2), (40, .iri 1)], [(41, .iri 2), (40, .iri 1)]] := by decide
+example : (evalModify plainGraph unionModify oneTriple).quads =
+    [(.iri 1, .iri 4, .iri 2, none), (.iri 1, .iri 5, .fresh 0, none), (.iri 1, .iri 5, .fresh 1, none)] := by
+  decide
+/-- the same through a sub-select projecting `?y` away: {a p b, a p c} gives ?x = a twice -/
+example : ({ unionModify with wmode := .proj [40] }.solutions plainGraph
+    ⟨[(.iri 1, .iri 4, .iri 2, none), (.iri 1, .iri 4, .iri 3, none)], [], 0⟩) =
+    [[(40, .iri 1)], [(40, .iri 1)]] := by decide
+
 end RV.C10
